@@ -117,6 +117,7 @@ def r18c(chk, rid='R18.c'):
 
 def r18d(chk, rid='R18.d'):
     chk.rule(rid, 'the number formatter decided by evaluation: CSSSerializer.do_css_Value (with _strip_zeros, resolved in the class) is evaluated on its syntax tree for representatives of every case its comparisons distinguish - zero, integral (small, huge), non-integral below and above magnitude one, each sign spelling, literals with one to six fractional digits - under omitLeadingZero on and off: the text denotes exactly the same real number, an explicit + is kept for non-zero values only, the leading zero is dropped only under the preference and only the one before the decimal point')
+    chk.assume("R18.d: the branch structure of do_css_Value is decided for representatives of every case; '%f' formatting of the representatives is the interpreter's float arithmetic")
     from fractions import Fraction
 
     cases = []
@@ -216,6 +217,7 @@ def r18g(chk, rid='R18.g'):
 
 def r18h(chk, rid='R18.h'):
     chk.rule(rid, 'numeric literals and their typed accessors, decided by evaluation: a DIMENSION / NUMBER / PERCENTAGE token is passed through the toSeq conversion of its PreDef production (evaluated from prodparser.py) and then through DimensionValue._setCssText (evaluated from value.py; the production parse between them is modelled): the value is exactly the real number the literal denotes - integers of any size, one to six fractional digits, with and without integer part and sign - the sign spelling is kept, and the unit is the normalised unit (case folded, simple escapes removed) or None')
+    chk.assume("R18.h: the production parse between PreDef and DimensionValue is modelled as 'the token goes through the toSeq of its production'; helper.normalize as in R10.g")
     import re as _re
     from fractions import Fraction
 
